@@ -27,11 +27,18 @@ TStep ==
         [] e.ev = "import" ->
              LET t == ImportRes(s, e.seg) IN
              /\ (e.err = "") = (Verified(s, e.seg) /\ \A i \in DOMAIN e.seg : e.seg[i] \in t.blk)
+             \* (after a rewind the real header cache may still hold a deleted parent: no comparison when the model's parent is gone)
+             /\ (PureFirstRejected(s, e.seg) = -2 \/ e.pure = PureFirstRejected(s, e.seg))
              /\ SameChain(e.obs, t) /\ s' = t
         [] e.ev = "sethead" ->
              LET t == IF e.err = "noop" THEN s ELSE SetHeadRes(s, e.k) IN SameChain(e.obs, t) /\ s' = t
         [] e.ev = "query" ->
              /\ e.lo = QLo /\ e.ans = Answers(s) /\ SameChain(e.obs, s) /\ UNCHANGED s
+        [] e.ev = "probe" ->       \* the real pure verifier and the model accept the same candidates on top of this parent
+             /\ LET p == HdOf(e.p) IN
+                { e.cands[k + 1] : k \in { e.pure[i] : i \in DOMAIN e.pure } }
+                   = { e.cands[j] : j \in { i \in DOMAIN e.cands : Verify(PP, KK, p, Hdr(p.n + 1, e.cands[i][1], e.cands[i][2], e.cands[i][3], e.cands[i][4], e.cands[i][5]), FALSE) = "ok" } }
+             /\ UNCHANGED s
         [] OTHER -> UNCHANGED s
    /\ UNCHANGED <<ps, ans, hist>>
 
